@@ -442,6 +442,8 @@ def build_params(repo):
         ('nopen', [('remove_penalised_group', '0')], 'keep penalised groups'),
         ('shdet', [('shared_determinants', '1')], 'shared determinants on'),
         ('ccc', [('common_charge_centre', '1')], 'common charge centre on'),
+        ('shccc', [('shared_determinants', '1'), ('common_charge_centre', '1')],
+         'shared determinants and common charge centre on'),
         ('pkas', [('model_pkas', None)], 'other model pKa'),
         ('coul', [('coulomb_cutoff1', '5.0'), ('coulomb_cutoff2', '12.0')], 'other Coulomb cut-offs'),
         ('desol', [('desolvationPrefactor', '-11.0')], 'other desolvation prefactor'),
